@@ -25,7 +25,7 @@ def build(d):
         n, edges = d["n"], [tuple(e) for e in d["edges"]]
         items = E.bool_items(s, n, d["mode"])
         xv = list(s.variables)
-        g = E.mk_graph(n, edges)
+        g = E.mk_graph(n, edges, d.get("history"))
         if d["fn"] == "na":
             G.active_vertices_not_adjacent(s, items if d["form"] == "list" else BoolArray1D(items), g)
         else:
@@ -77,6 +77,12 @@ def instances(tier, rng):
     for nm, n, es in gl:
         out.append(dict(name="%s/na/list" % nm, form="list", n=n, edges=es, fn="na", mode="vars"))
         out.append(dict(name="%s/nans/array1d" % nm, form="array1d", n=n, edges=es, fn="nans", mode="vars"))
+        if es:
+            for how in ("rev", "alt"):
+                out.append(dict(name="%s/na/list/%s" % (nm, how), form="list", n=n, edges=E.orient(es, how), fn="na", mode="vars"))
+                out.append(dict(name="%s/nans/array1d/%s" % (nm, how), form="array1d", n=n, edges=E.orient(es, how), fn="nans", mode="vars"))
+        if len(es) >= 2:
+            out.append(dict(name="%s/nans/array1d/hist" % nm, form="array1d", n=n, edges=es, fn="nans", mode="vars", history=len(es) // 2))
         if n <= 4:
             out.append(dict(name="%s/nans/array1d/and" % nm, form="array1d", n=n, edges=es, fn="nans", mode="and"))
     return out
